@@ -408,6 +408,7 @@ func c04NewEng(armed []c04Gk, nch int) (*c04Eng, error) {
 		if c != e.client {
 			return
 		}
+		e.log("connectcb", "")
 		c.OnSubscribe(func(ev SubscribeEvent, cb SubscribeCallback) {
 			e.onSubscribe(ev, cb)
 		})
@@ -423,8 +424,9 @@ func c04NewEng(armed []c04Gk, nch int) (*c04Eng, error) {
 			e.gate(c04GkAliveH, "")
 			e.log("alivecb", "")
 		})
+		// the connect callback has started and registered the handlers (model: KEnter); it returns
+		// when the driver releases it (model: KHandler)
 		e.gate(c04GkConnH, "")
-		e.log("connectcb", "")
 	})
 	// writeDisconnectOrErrorFlush starts `go c.close(...)` and then reports the command: the report tells the
 	// driver that a close goroutine exists even before it has been scheduled
@@ -718,7 +720,7 @@ func (e *c04Eng) addCmd(coq string, js string) {
 func (e *c04Eng) snapshot() {
 	row := make([]c04Snap, 0, len(e.chs))
 	for _, ch := range e.chs {
-		sn := c04Snap{N: e.node.hub.NumSubscribers(ch)}
+		sn := c04Snap{N: e.node.hub.NumSubscribers(ch), IsSub: e.client.IsSubscribed(ch)}
 		e.mu.Lock()
 		sn.BSub = e.bsub[ch]
 		e.mu.Unlock()
@@ -780,6 +782,8 @@ func (o c04Op) coq() string {
 		return "OClose"
 	case "tick":
 		return "OTick"
+	case "shutdown":
+		return "OShutdown"
 	}
 	return "OConnect"
 }
@@ -791,7 +795,9 @@ func (e *c04Eng) enabled(o c04Op) bool {
 	authed, closed := c.authenticated, c.status == statusClosed
 	c.mu.RUnlock()
 	switch o.Kind {
-	case "subcli", "unsubcli":
+	case "subcli":
+		return authed && !closed && c.eventHub.subscribeHandler != nil
+	case "unsubcli":
 		return authed && !closed
 	case "subsrv", "unsubsrv":
 		_, ok := e.node.hub.UserConnections("u1")[c.uid]
@@ -839,6 +845,12 @@ func (e *c04Eng) spawn(o c04Op) *c04Thread {
 		f = func() { _ = c.close(DisconnectForceNoReconnect) }
 	case "tick":
 		f = func() { c.updatePresence() }
+	case "shutdown":
+		f = func() {
+			ctx, cancel := context.WithTimeout(context.Background(), 30*time.Second)
+			defer cancel()
+			_ = e.node.Shutdown(ctx)
+		}
 	case "connect":
 		f = func() {
 			err := c.connectCmd(&protocol.ConnectRequest{}, &protocol.Command{Id: 1}, time.Now(),
@@ -1065,9 +1077,10 @@ type c04Obs struct {
 }
 
 type c04Snap struct {
-	N    int  `json:"n"`
-	BSub bool `json:"b"`
-	Free bool `json:"f"`
+	N     int  `json:"n"`
+	BSub  bool `json:"b"`
+	Free  bool `json:"f"`
+	IsSub bool `json:"s"`
 }
 
 func c04GaugeSum(g *prometheus.GaugeVec) int64 {
@@ -1241,7 +1254,7 @@ func (e *c04Eng) obsCoq(o c04Obs) string {
 	for _, row := range o.Snaps {
 		var xs []string
 		for _, sn := range row {
-			xs = append(xs, vApp("mkSnap", vN(uint64(sn.N)), vBool(sn.BSub), vBool(sn.Free)))
+			xs = append(xs, vApp("mkSnap", vN(uint64(sn.N)), vBool(sn.BSub), vBool(sn.Free), vBool(sn.IsSub)))
 		}
 		snaps = append(snaps, vList(xs))
 	}
@@ -1267,6 +1280,7 @@ type c04Plan struct {
 	NCh    int
 	Script func(e *c04Eng, r *rand.Rand)
 	Drain  bool
+	Finish func(e *c04Eng) // replaces the default "release everything (and drain)" ending
 }
 
 func c04Finish(e *c04Eng, drain bool) {
@@ -1317,7 +1331,11 @@ func c04RunPlanOnce(p c04Plan, r *rand.Rand) (res c04Result, unsafe bool) {
 		}
 	}()
 	p.Script(e, r)
-	c04Finish(e, p.Drain)
+	if p.Finish != nil {
+		p.Finish(e)
+	} else {
+		c04Finish(e, p.Drain)
+	}
 	t1 := time.Now()
 	o := e.observe()
 	o.Drained = p.Drain
